@@ -20,3 +20,61 @@ package client
 //@   ensures[C03.status_kept] err != nil && isStatus(err) && stCode(err) != 0 && !errIs(err, context.Canceled) && !errIs(err, context.DeadlineExceeded) ==>
 //@     | isStatus(result) && stCode(result) == stCode(err) && stMsg(result) == stMsg(err) && stDetails(result) == stDetails(err)
 //@   ensures[C03.plain_error_unknown C09.never_eof] err != nil && !isStatus(err) ==> result != nil && result != io.EOF && isStatus(result)
+
+// ---------------------------------------------------------------------------------
+// RpcMultiplexer: registry of response channels, guarded by rm.mutex
+
+//@ objinv[C13.objinv C09.objinv C14.objinv C01.objinv C05.objinv] client.RpcMultiplexer : self.rw != nil && self.cancel != nil && self.handlers != nil && self.ctx != nil
+
+//@ chanclass client.handlers msg: m != nil && m.Id == tag(ch)
+
+//@ lock client.RpcMultiplexer.mutex teardown guards handlers, rErr
+//@   inv[C01.registry C05.registry C13.registry C14.registry] forall id Int :: id in self.handlers ==>
+//@     | self.handlers[id] != nil && isclass(self.handlers[id], "client.handlers") && tag(self.handlers[id]) == id && !closed(self.handlers[id])
+//@   inv[C09.failed_means_empty] self.rErr != nil ==> len(self.handlers) == 0
+
+//@ func client.(*RpcMultiplexer).registerHandler
+//@   requires[C05.registry C01.registry] c != nil && isclass(c, "client.handlers") && tag(c) == id && !closed(c)
+//@   owns c
+//@   ensures[C05.registered] id in rm.handlers && rm.handlers[id] == c
+
+//@ func client.(*RpcMultiplexer).unregisterHandler
+//@   nopanic[C13.nopanic C14.nopanic]
+//@   ensures[C14.unregistered C05.unregistered] !(id in rm.handlers)
+
+//@ func client.(*RpcMultiplexer).handleResponse
+//@   nopanic[C13.nopanic]
+//@   requires[C13.read_nonnil] rpc != nil
+//@   ensures[C01.at_most_one_delivery C05.at_most_one_delivery] ncalls("send") <= old(ncalls("send")) + 1
+//@   atcall[C05.deliver_to_owner C01.deliver_to_owner] send : tag(arg0) == rpc.Id && arg1 == rpc
+
+//@ func client.(*RpcMultiplexer).closeError
+//@   nopanic[C13.nopanic C09.nopanic]
+//@   loop 0 invariant[C09.close_all C05.registry] forall id Int :: id in rm.handlers ==>
+//@     | rm.handlers[id] != nil && isclass(rm.handlers[id], "client.handlers") && tag(rm.handlers[id]) == id && !closed(rm.handlers[id])
+//@   loop 0 invariant[C09.close_all] forall k Int :: visited(k) ==> !(k in rm.handlers)
+//@   loop 0 invariant[C09.close_all] rm.rErr == err && err != nil
+//@   ensures[C09.error_recorded] err != nil ==> rm.rErr == err && len(rm.handlers) == 0
+
+//@ func client.(*RpcMultiplexer).readErrorIfDone
+//@   ensures[C09.reads_error] true
+
+//@ func client.(*RpcMultiplexer).readLoop
+//@   nopanic[C13.nopanic]
+//@   ensures[C09.exit_only_on_error] result != nil
+
+//@ func client.(*RpcMultiplexer).CallUnaryMethod
+//@   nopanic[C13.nopanic C01.nopanic]
+//@   requires header != nil && ctx != nil
+//@   requires forall j Int :: 0 <= j && j < len(statsHandlers) ==> statsHandlers[j] != nil
+//@   makechan 0 tag streamId class client.handlers
+//@   atcall[C01.request_envelope C06.unary_request C05.fresh_id] (types.RpcReadWriter).Write :
+//@     | arg2 != nil && arg2.Id == streamId && arg2.Header == header && arg2.Body == body && arg2.Status == nil && arg2.Trailer == nil && arg2.Reset_ == nil && arg1 == ctx
+//@   ensures[C06.unary_request_once C01.one_request] ncalls("(types.RpcReadWriter).Write") <= old(ncalls("(types.RpcReadWriter).Write")) + 1
+//@   ensures[C14.released C05.released] bound("streamId") ==> !(streamId in rm.handlers)
+//@   ensures[C13.success_only_with_data C03.result_wellformed C09.no_fabricated_success] result.1 == nil ==> result.0 != nil
+//@   ensures[C01.reply_is_own C05.reply_is_own C13.success_only_with_data] result.1 == nil ==> bound("resp") && resp.Id == streamId && result.0 == resp.Body
+//@   ensures[C03.ok_status_body] bound("resp") && resp != nil && resp.Status != nil && resp.Status.Code == 0 && resp.Body != nil ==> result.1 == nil && result.0 == resp.Body
+//@   ensures[C03.error_status] bound("resp") && resp != nil && resp.Status != nil && resp.Status.Code != 0 ==>
+//@     | result.0 == nil && isStatus(result.1) && stCode(result.1) == resp.Status.Code && stMsg(result.1) == resp.Status.Message && stDetails(result.1) == resp.Status.Details
+//@   ensures[C09.closed_channel_is_error] bound("ok") && !ok ==> result.1 != nil
